@@ -11,11 +11,11 @@ Local Arguments Ascii.eqb : simpl never.
 (** SEARCH through HandleSearch: the line is split by strings.Fields and the
     criteria re-joined with single blanks *)
 Theorem search_cmd_exact tag cmd ks mb :
-  wf_prog ks = true -> classify_line ks mb = None ->
+  wf_prog ks = true -> mb_ok mb = true -> classify_line ks mb = None ->
   str_eqb (to_upper (nth 0 (fields (print_prog ks)) [])) (S_ "CHARSET") = false ->
   search_cmd (tag :: cmd :: fields (print_prog ks)) (to_msgs mb) = ROk (spec_search_list ks mb).
 Proof.
-  intros W C NC. unfold classify_line in C. destruct (fields_stable (print_prog ks)) eqn:FS; [|discriminate].
+  intros W Hmb C NC. unfold classify_line in C. destruct (fields_stable (print_prog ks)) eqn:FS; [|discriminate].
   unfold fields_stable in FS. apply str_eqb_eq in FS.
   pose proof (print_not_blank ks mb W C) as NB.
   destruct (fields (print_prog ks)) as [|f1 fs] eqn:F.
@@ -25,18 +25,10 @@ Proof.
     cbn [nth]. rewrite NC, andb_false_r. cbn [andb].
     replace (length (tag :: cmd :: f1 :: fs) <=? 2)%nat with false by (symmetry; apply Nat.leb_gt; cbn [length]; lia).
     cbn [skipn]. rewrite FS. fold (search (to_msgs mb) (print_prog ks)).
-    destruct (search_exact ks mb W C) as [-> _]. reflexivity.
+    destruct (search_exact ks mb W Hmb C) as [-> _]. reflexivity.
 Qed.
 
 (** ** UID SEARCH *)
-Lemma fields_aux_tok t : forall s cur, forallb (fun c => negb (is_space c)) t = true ->
-  fields_aux (t ++ s) cur = fields_aux s (rev t ++ cur).
-Proof.
-  induction t as [|c t IH]; intros s cur H; [reflexivity|].
-  cbn [forallb] in H. apply andb_true_iff in H as [H1 H2]. apply negb_true_iff in H1.
-  cbn [app fields_aux]. rewrite H1. rewrite IH by exact H2. cbn [rev]. now rewrite <- app_assoc.
-Qed.
-
 Lemma numbered_uids l : forall i, map m_uid (map to_msg (number_from i l)) = map (fun '(i, m) => s_uid m) (number_from i l).
 Proof. induction l as [|x l IH]; intros i; [reflexivity|]. cbn [number_from map]. now rewrite IH. Qed.
 
